@@ -394,9 +394,13 @@ func main() {
 
 	r.Sample(map[string]any{"table": "kerr", "code": 133, "error": fmt.Sprint(kerr.ErrorForCode(133))})
 	r.Sample(map[string]any{"table": "kerr", "code": 134, "error": fmt.Sprint(kerr.ErrorForCode(134))})
-	r.Sample(map[string]any{"table": "kmsg", "key": kmsg.MaxKey, "name": kmsg.NameForKey(kmsg.MaxKey), "max_version": kmsg.RequestForKey(kmsg.MaxKey).MaxVersion()})
-	if v, ok := kversion.Stable().LookupMaxKeyVersion(1); ok {
-		r.Sample(map[string]any{"table": "kversion", "release": "Stable()", "key": 1, "version": v, "codec_max": kmsg.RequestForKey(1).MaxVersion()})
+	if req := kmsg.RequestForKey(kmsg.MaxKey); req != nil {
+		r.Sample(map[string]any{"table": "kmsg", "key": kmsg.MaxKey, "name": kmsg.NameForKey(kmsg.MaxKey), "max_version": req.MaxVersion()})
+	}
+	if r.Violations() == 0 {
+		if v, ok := kversion.Stable().LookupMaxKeyVersion(1); ok {
+			r.Sample(map[string]any{"table": "kversion", "release": "Stable()", "key": 1, "version": v, "codec_max": kmsg.RequestForKey(1).MaxVersion()})
+		}
 	}
 	r.Set("bound_completed", "all 65536 error codes; all 65536 API keys; every named release x all 65536 keys")
 	r.Finish()
